@@ -238,3 +238,127 @@ Proof.
     destruct Hx as [k (H1 & H2 & -> & ->)]. exists k. repeat split; lia.
 Qed.
 End Facts.
+
+(* ---- start-line stages ---- *)
+Lemma advances0_refl {A} (a : A) off l : advances0 off l (ROk a off l).
+Proof. exists 0. cbn [skipn Nat.add]. repeat split; lia. Qed.
+
+Lemma advances0_cons {A} off b r (x : rres A) :
+  advances0 (S off) r x -> advances0 off (b :: r) x.
+Proof. intros H. apply advances_weaken. apply advances_cons. exact H. Qed.
+Lemma advances0_cons2 {A} off b b2 r (x : rres A) :
+  advances0 (2 + off) r x -> advances0 off (b :: b2 :: r) x.
+Proof. intros H. apply advances_weaken. apply advances_cons2. exact H. Qed.
+
+Lemma ref_empty_lines_adv : forall n l off, length l <= n -> advances0 off l (ref_empty_lines off l).
+Proof.
+  induction n as [|n IH]; intros l off Hn.
+  { destruct l; [exact I|cbn [length] in Hn; lia]. }
+  destruct l as [|b r]; [exact I|]. cbn [length] in Hn. cbn [ref_empty_lines].
+  destruct (is 13 b).
+  - destruct r as [|b2 r2]; [exact I|]. destruct (is 10 b2); [|exact I].
+    apply advances0_cons2. apply IH. cbn [length] in Hn. lia.
+  - destruct (is 10 b).
+    + apply advances0_cons. apply IH. lia.
+    + apply advances0_refl.
+Qed.
+
+Lemma span_adv0 {A} p l off (a : A) :
+  advances0 off l (ROk a (length (fst (span p l)) + off) (snd (span p l))).
+Proof.
+  destruct (span p l) as [x t] eqn:Es. apply span_skipn in Es as [-> Hx]. cbn [fst snd].
+  exists (length x). auto.
+Qed.
+
+Lemma ref_spaces_adv on off l : advances0 off l (ref_spaces on off l).
+Proof.
+  unfold ref_spaces. destruct on; [|apply advances0_refl].
+  pose proof (span_adv0 (is 32) l off tt) as H. destruct (span (is 32) l) as [s r]. cbn [fst snd] in H.
+  destruct r; [exact I|exact H].
+Qed.
+
+(* a span followed by one more byte *)
+Lemma span_then_one {A} p l off (a : A) x t b r' :
+  span p l = (x, t) -> t = b :: r' -> advances off l (ROk a (S (length x) + off) r').
+Proof.
+  intros Es Et. apply span_skipn in Es as [Es Hx]. rewrite Et in Es. clear Et.
+  assert (Hlen : length l = length x + S (length r')).
+  { rewrite <- (firstn_skipn (length x) l) at 1. rewrite app_length, firstn_length, <- Es. cbn [length]. lia. }
+  exists (S (length x)). repeat split; try lia.
+  replace (S (length x)) with (length x + 1) by lia. rewrite <- skipn_add, <- Es. reflexivity.
+Qed.
+
+Lemma ref_method_adv off l : advances off l (ref_method off l).
+Proof.
+  unfold ref_method. destruct (span tchar l) as [m r] eqn:Es.
+  destruct r as [|b r']; [exact I|]. destruct (null m); [exact I|]. destruct (is 32 b); [|exact I].
+  eapply span_then_one; eauto.
+Qed.
+Lemma ref_target_adv off l : advances off l (ref_target off l).
+Proof.
+  unfold ref_target. destruct (span uri_char l) as [m r] eqn:Es.
+  destruct r as [|b r']; [exact I|]. destruct (negb (is 32 b)); [exact I|].
+  destruct (null m); [exact I|]. destruct (negb (utf8_valid m)); [exact I|].
+  eapply span_then_one; eauto.
+Qed.
+Lemma ref_version_adv off l : advances off l (ref_version off l).
+Proof.
+  unfold ref_version. rewrite take_spec. destruct (Nat.leb_spec 8 (length l)).
+  - destruct (list_eqb _ _); [exists 8; repeat split; lia|].
+    destruct (list_eqb _ _); [exists 8; repeat split; lia|exact I].
+  - destruct (is_prefix l HTTP1dot); exact I.
+Qed.
+Lemma ref_eol_adv e off l : advances off l (ref_eol e off l).
+Proof.
+  unfold ref_eol. destruct l as [|b r]; [exact I|].
+  destruct (is 13 b).
+  - destruct r as [|b2 r2]; [exact I|]. destruct (is 10 b2); [|exact I].
+    exists 2. cbn [length skipn]. repeat split; lia.
+  - destruct (is 10 b); [|exact I]. exists 1. cbn [length skipn]. repeat split; lia.
+Qed.
+Lemma ref_sp_adv e off l : advances off l (ref_sp e off l).
+Proof.
+  unfold ref_sp. destruct l as [|b r]; [exact I|]. destruct (is 32 b); [|exact I].
+  exists 1. cbn [length skipn]. repeat split; lia.
+Qed.
+Lemma ref_code_adv off l : advances off l (ref_code off l).
+Proof.
+  unfold ref_code. destruct l as [|a r1]; [exact I|]. destruct (negb (digit a)); [exact I|].
+  destruct r1 as [|b r2]; [exact I|]. destruct (negb (digit b)); [exact I|].
+  destruct r2 as [|c r3]; [exact I|]. destruct (negb (digit c)); [exact I|].
+  exists 3. cbn [length skipn]. repeat split; lia.
+Qed.
+
+(* composition *)
+Lemma rbind_adv0 {A B} off l (x : rres A) (g : A -> nat -> list N -> rres B) :
+  advances0 off l x ->
+  (forall a o r, x = ROk a o r -> advances0 o r (g a o r)) ->
+  advances0 off l (rbind x g).
+Proof.
+  destruct x as [a o r| |]; cbn [rbind]; auto.
+  intros [k (Hk & -> & ->)] Hg. specialize (Hg a _ _ eq_refl).
+  destruct (g a (k + off) (skipn k l)) as [b o' r'| |]; cbn [advances0] in *; auto.
+  destruct Hg as [k' (Hk' & -> & ->)]. rewrite skipn_length in Hk'. exists (k + k').
+  rewrite skipn_add. repeat split; lia.
+Qed.
+
+Lemma ref_reason_adv off l : advances off l (ref_reason off l).
+Proof.
+  unfold ref_reason. destruct (span reason_char l) as [t r] eqn:Es.
+  pose proof (ref_eol_adv Status (length t + off) r) as H.
+  apply span_skipn in Es as [-> Ht].
+  destruct (ref_eol Status (length t + off) (skipn (length t) l)) as [u o r'| |]; cbn [advances] in *; auto.
+  destruct H as [k (Hk0 & Hk & -> & ->)]. rewrite skipn_length in Hk. exists (length t + k).
+  rewrite skipn_add. repeat split; lia.
+Qed.
+
+Lemma ref_after_code_adv ms off l : advances0 off l (ref_after_code ms off l).
+Proof.
+  unfold ref_after_code. destruct l as [|b r]; [exact I|].
+  destruct (is 32 b).
+  - apply advances0_cons. apply rbind_adv0; [apply ref_spaces_adv|].
+    intros a o r' _. apply advances_weaken. apply ref_reason_adv.
+  - destruct (is 13 b || is 10 b); [|exact I].
+    pose proof (ref_eol_adv Status off (b :: r)) as H. apply advances_weaken in H.
+    destruct (ref_eol Status off (b :: r)); cbn [advances0] in *; auto.
+Qed.
